@@ -174,7 +174,7 @@ func (m inMode) String() string {
 func parserCall(r *Rng, who string) rcall {
 	in := genReuseInput(r)
 	mode := genInMode(r, len(in))
-	opt := r.Intn(9)
+	opt := r.Intn(11) // 9, 10: the Unmarshal method of oj.Parser / sen.Parser (into any, into a struct)
 	desc := fmt.Sprintf("%s %s opt=%d input=%q", who, mode, opt, in)
 	return rcall{desc: desc, tag: fmt.Sprintf("%s/%s/opt%d", who, mode, opt), run: func(inst any, fresh bool) (out string, ret []any) {
 		buf := append([]byte(nil), in...)
@@ -217,9 +217,21 @@ func parserCall(r *Rng, who string) rcall {
 				ch = make(chan any, 4096)
 				args = append(args, ch)
 			}
-			if mode.kind == 0 {
+			switch {
+			case opt == 9:
+				var x any
+				err = p.Unmarshal(buf, &x)
+				v = x
+			case opt == 10:
+				var x struct {
+					A int
+					B []float64
+				}
+				err = p.Unmarshal(buf, &x)
+				v = fmt.Sprintf("%v", x)
+			case mode.kind == 0:
 				v, err = p.Parse(buf, args...)
-			} else {
+			default:
 				v, err = p.ParseReader(mode.reader(buf), args...)
 			}
 			if ch != nil {
@@ -293,9 +305,21 @@ func parserCall(r *Rng, who string) rcall {
 				ch = make(chan any, 4096)
 				args = append(args, ch)
 			}
-			if mode.kind == 0 {
+			switch {
+			case opt == 9:
+				var x any
+				err = p.Unmarshal(buf, &x)
+				v = x
+			case opt == 10:
+				var x struct {
+					A int
+					B []float64
+				}
+				err = p.Unmarshal(buf, &x)
+				v = fmt.Sprintf("%v", x)
+			case mode.kind == 0:
 				v, err = p.Parse(buf, args...)
-			} else {
+			default:
 				v, err = p.ParseReader(mode.reader(buf), args...)
 			}
 			if ch != nil {
